@@ -251,9 +251,32 @@ impl CheckpointManager {
             CheckpointStorage::load(id_or_name, &blob).await?
         };
 
+        // The blob store that holds the checkpoints usually lives in the very store that is being
+        // rolled back, and every image therefore contains the blob store as it was when the image
+        // was taken. Restoring that part as well would put the *checkpoint list* back in time:
+        // the checkpoint just restored and all newer ones would vanish, and checkpoints already
+        // purged by retention would reappear. Blob storage is carried over unchanged instead.
+        const BLOB_PREFIX: &str = "_blob:";
+        let blob_guard = self.blob.lock().await;
+        let kept: Vec<_> = store
+            .scan(BLOB_PREFIX)
+            .into_iter()
+            .filter_map(|key| store.get(&key).ok().map(|value| (key, value)))
+            .collect();
+
         store
             .restore_from_bytes(&state.store_snapshot)
             .map_err(|e| CheckpointError::Snapshot(e.to_string()))?;
+
+        for key in store.scan(BLOB_PREFIX) {
+            let _ = store.delete(&key);
+        }
+        for (key, value) in kept {
+            store
+                .put(key, value)
+                .map_err(|e| CheckpointError::Snapshot(e.to_string()))?;
+        }
+        drop(blob_guard);
 
         Ok(())
     }
